@@ -1,1 +1,276 @@
-//! (to be filled)
+//! Independent protobuf wire decoder (varint, fixed64, length-delimited) whose
+//! field tables are read at run time from /repo/proto/proto_model.proto.
+//! Unknown fields, wrong wire types, repeated singular fields, trailing bytes
+//! and non-UTF-8 strings are errors.
+
+use crate::refmodel::*;
+use std::collections::BTreeMap;
+
+#[derive(Clone, Debug, PartialEq)]
+pub enum FType {
+    Double,
+    Uint64,
+    Int64,
+    Str,
+    Enum(String),
+    Msg(String),
+}
+
+#[derive(Clone, Debug)]
+pub struct Field {
+    pub name: String,
+    pub ty: FType,
+    pub repeated: bool,
+}
+
+#[derive(Default, Debug)]
+pub struct Schema {
+    pub messages: BTreeMap<String, BTreeMap<u64, Field>>,
+    pub enums: BTreeMap<String, BTreeMap<i64, String>>,
+}
+
+/// Minimal .proto (proto2) reader: `message X { optional|repeated T name = N; }`, `enum E { A = 0; }`.
+pub fn load_schema(path: &str) -> Result<Schema, String> {
+    let text = std::fs::read_to_string(path).map_err(|e| format!("{}: {}", path, e))?;
+    let mut schema = Schema::default();
+    // strip comments
+    let clean: String = text.lines().map(|l| l.split("//").next().unwrap_or("")).collect::<Vec<_>>().join("\n");
+    let toks: Vec<String> = clean
+        .replace('{', " { ")
+        .replace('}', " } ")
+        .replace(';', " ; ")
+        .replace('=', " = ")
+        .split_whitespace()
+        .map(|s| s.to_string())
+        .collect();
+    let mut i = 0;
+    let mut raw_fields: Vec<(String, u64, String, String, bool)> = vec![];
+    while i < toks.len() {
+        match toks[i].as_str() {
+            "message" => {
+                let name = toks[i + 1].clone();
+                schema.messages.entry(name.clone()).or_default();
+                i += 3; // name {
+                while toks[i] != "}" {
+                    let label = toks[i].clone();
+                    let ty = toks[i + 1].clone();
+                    let fname = toks[i + 2].clone();
+                    if toks[i + 3] != "=" {
+                        return Err(format!("unexpected token {:?} in message {}", toks[i + 3], name));
+                    }
+                    let num: u64 = toks[i + 4].parse().map_err(|_| format!("bad field number {:?}", toks[i + 4]))?;
+                    if toks[i + 5] != ";" {
+                        return Err("field options are not supported".into());
+                    }
+                    raw_fields.push((name.clone(), num, fname, ty, label == "repeated"));
+                    i += 6;
+                }
+                i += 1;
+            }
+            "enum" => {
+                let name = toks[i + 1].clone();
+                let e = schema.enums.entry(name).or_default();
+                i += 3;
+                while toks[i] != "}" {
+                    let v: i64 = toks[i + 2].parse().map_err(|_| "bad enum value".to_string())?;
+                    e.insert(v, toks[i].clone());
+                    i += 4;
+                }
+                i += 1;
+            }
+            _ => {
+                // syntax / package / option statements
+                while i < toks.len() && toks[i] != ";" {
+                    i += 1;
+                }
+                i += 1;
+            }
+        }
+    }
+    for (msg, num, fname, ty, rep) in raw_fields {
+        let ft = match ty.as_str() {
+            "double" => FType::Double,
+            "uint64" => FType::Uint64,
+            "int64" => FType::Int64,
+            "string" => FType::Str,
+            t if schema.enums.contains_key(t) => FType::Enum(t.to_string()),
+            t if schema.messages.contains_key(t) => FType::Msg(t.to_string()),
+            t => return Err(format!("unsupported field type {}", t)),
+        };
+        schema.messages.get_mut(&msg).unwrap().insert(num, Field { name: fname, ty: ft, repeated: rep });
+    }
+    Ok(schema)
+}
+
+#[derive(Clone, Debug, PartialEq)]
+pub enum PVal {
+    F(f64),
+    U(u64),
+    I(i64),
+    S(String),
+    E(i64),
+    M(PMsg),
+}
+
+pub type PMsg = Vec<(String, PVal)>;
+
+fn varint(b: &[u8], pos: &mut usize) -> Result<u64, String> {
+    let mut v: u64 = 0;
+    let mut shift = 0;
+    loop {
+        if *pos >= b.len() {
+            return Err("truncated varint".into());
+        }
+        let byte = b[*pos];
+        *pos += 1;
+        if shift == 63 && byte > 1 {
+            return Err("varint overflows 64 bits".into());
+        }
+        v |= ((byte & 0x7f) as u64) << shift;
+        if byte & 0x80 == 0 {
+            return Ok(v);
+        }
+        shift += 7;
+        if shift > 63 {
+            return Err("varint too long".into());
+        }
+    }
+}
+
+pub fn decode_message(schema: &Schema, msg: &str, b: &[u8]) -> Result<PMsg, String> {
+    let fields = schema.messages.get(msg).ok_or(format!("unknown message {}", msg))?;
+    let mut out: PMsg = vec![];
+    let mut pos = 0;
+    while pos < b.len() {
+        let key = varint(b, &mut pos)?;
+        let (num, wt) = (key >> 3, key & 7);
+        let f = fields.get(&num).ok_or(format!("{}: unknown field number {}", msg, num))?;
+        if !f.repeated && out.iter().any(|(n, _)| *n == f.name) {
+            return Err(format!("{}: singular field {} appears twice", msg, f.name));
+        }
+        let val = match (&f.ty, wt) {
+            (FType::Double, 1) => {
+                if pos + 8 > b.len() {
+                    return Err(format!("{}.{}: truncated fixed64", msg, f.name));
+                }
+                let mut a = [0u8; 8];
+                a.copy_from_slice(&b[pos..pos + 8]);
+                pos += 8;
+                PVal::F(f64::from_bits(u64::from_le_bytes(a)))
+            }
+            (FType::Uint64, 0) => PVal::U(varint(b, &mut pos)?),
+            (FType::Int64, 0) => PVal::I(varint(b, &mut pos)? as i64),
+            (FType::Enum(e), 0) => {
+                let v = varint(b, &mut pos)? as i64;
+                if !schema.enums[e].contains_key(&v) {
+                    return Err(format!("{}.{}: value {} is not a member of enum {}", msg, f.name, v, e));
+                }
+                PVal::E(v)
+            }
+            (FType::Str, 2) | (FType::Msg(_), 2) => {
+                let len = varint(b, &mut pos)? as usize;
+                if pos + len > b.len() {
+                    return Err(format!("{}.{}: length {} exceeds the enclosing message", msg, f.name, len));
+                }
+                let body = &b[pos..pos + len];
+                pos += len;
+                match &f.ty {
+                    FType::Str => PVal::S(String::from_utf8(body.to_vec()).map_err(|_| format!("{}.{}: not UTF-8", msg, f.name))?),
+                    FType::Msg(m) => PVal::M(decode_message(schema, m, body)?),
+                    _ => unreachable!(),
+                }
+            }
+            (t, w) => return Err(format!("{}.{}: wire type {} does not fit {:?}", msg, f.name, w, t)),
+        };
+        out.push((f.name.clone(), val));
+    }
+    Ok(out)
+}
+
+/// Split a stream of varint-length-delimited MetricFamily messages.
+pub fn decode_stream(schema: &Schema, b: &[u8]) -> Result<Vec<PMsg>, String> {
+    let mut out = vec![];
+    let mut pos = 0;
+    while pos < b.len() {
+        let len = varint(b, &mut pos)? as usize;
+        if pos + len > b.len() {
+            return Err(format!("family {}: length prefix {} exceeds the remaining {} bytes", out.len(), len, b.len() - pos));
+        }
+        out.push(decode_message(schema, "MetricFamily", &b[pos..pos + len]).map_err(|e| format!("family {}: {}", out.len(), e))?);
+        pos += len;
+    }
+    Ok(out)
+}
+
+fn get<'a>(m: &'a PMsg, name: &str) -> Option<&'a PVal> {
+    m.iter().find(|(n, _)| n == name).map(|(_, v)| v)
+}
+fn all<'a>(m: &'a PMsg, name: &str) -> Vec<&'a PVal> {
+    m.iter().filter(|(n, _)| n == name).map(|(_, v)| v).collect()
+}
+fn f(v: Option<&PVal>) -> Option<f64> {
+    match v {
+        Some(PVal::F(x)) => Some(*x),
+        _ => None,
+    }
+}
+fn u(v: Option<&PVal>) -> Option<u64> {
+    match v {
+        Some(PVal::U(x)) => Some(*x),
+        _ => None,
+    }
+}
+fn s(v: Option<&PVal>) -> Option<String> {
+    match v {
+        Some(PVal::S(x)) => Some(x.clone()),
+        _ => None,
+    }
+}
+fn sub<'a>(v: Option<&'a PVal>) -> Option<&'a PMsg> {
+    match v {
+        Some(PVal::M(x)) => Some(x),
+        _ => None,
+    }
+}
+
+/// Decoded family in reference form; absent optional scalars read as their defaults
+/// (absence of name/help/type is reported separately).
+pub fn to_rfamily(m: &PMsg) -> Result<RFamily, String> {
+    let typ = match get(m, "type") {
+        Some(PVal::E(v)) => RType::from_number(*v as u64).ok_or("bad type")?,
+        None => RType::Counter,
+        _ => return Err("type is not an enum".into()),
+    };
+    let mut metrics = vec![];
+    for mv in all(m, "metric") {
+        let mm = sub(Some(mv)).ok_or("metric is not a message")?;
+        let mut r = RMetric::default();
+        for l in all(mm, "label") {
+            let lm = sub(Some(l)).ok_or("label is not a message")?;
+            r.labels.push((s(get(lm, "name")).unwrap_or_default(), s(get(lm, "value")).unwrap_or_default()));
+        }
+        r.ts = match get(mm, "timestamp_ms") {
+            Some(PVal::I(t)) => Some(*t),
+            _ => None,
+        };
+        r.counter = sub(get(mm, "counter")).map(|c| f(get(c, "value")).unwrap_or(0.0));
+        r.gauge = sub(get(mm, "gauge")).map(|c| f(get(c, "value")).unwrap_or(0.0));
+        r.untyped = sub(get(mm, "untyped")).map(|c| f(get(c, "value")).unwrap_or(0.0));
+        r.histogram = sub(get(mm, "histogram")).map(|h| {
+            (
+                u(get(h, "sample_count")).unwrap_or(0),
+                f(get(h, "sample_sum")).unwrap_or(0.0),
+                all(h, "bucket").iter().filter_map(|b| sub(Some(b))).map(|b| (f(get(b, "upper_bound")).unwrap_or(0.0), u(get(b, "cumulative_count")).unwrap_or(0))).collect(),
+            )
+        });
+        r.summary = sub(get(mm, "summary")).map(|h| {
+            (
+                u(get(h, "sample_count")).unwrap_or(0),
+                f(get(h, "sample_sum")).unwrap_or(0.0),
+                all(h, "quantile").iter().filter_map(|b| sub(Some(b))).map(|b| (f(get(b, "quantile")).unwrap_or(0.0), f(get(b, "value")).unwrap_or(0.0))).collect(),
+            )
+        });
+        metrics.push(r);
+    }
+    Ok(RFamily { name: s(get(m, "name")).unwrap_or_default(), help: s(get(m, "help")).unwrap_or_default(), typ, metrics })
+}
